@@ -635,31 +635,8 @@ example : (drain 9 { conns := [.err 7, .err 8, .err 0, .ok 3], dials := [0], raw
 
 /-- A failed dial that is queued is reported by the very next `poll_next`s, whatever is queued ahead of it. -/
 theorem queued_dial_failure_is_due (t : T) (id : Id) (pre post : List ConnRes) (hc : t.conns = pre ++ .err id :: post)
-    (hd : id ∈ t.dials) (hpre : ∀ r ∈ pre, r ≠ .ok id ∧ r ≠ .err id) : Ev.dialFailure id ∈ due t := by
-  have key : ∀ (pre : List ConnRes) (ds : List Id), id ∈ ds → (∀ r ∈ pre, r ≠ .ok id ∧ r ≠ .err id) →
-      Ev.dialFailure id ∈ connEvs (pre ++ .err id :: post) ds := by
-    intro pre
-    induction pre with
-    | nil => intro ds hd _; simp [connEvs, hd]
-    | cons r pre ih =>
-      intro ds hd hpre
-      have hr := hpre r (List.mem_cons_self ..)
-      have hrest : ∀ r ∈ pre, r ≠ .ok id ∧ r ≠ .err id := fun x hx => hpre x (List.mem_cons_of_mem _ hx)
-      have keep : ∀ j, j ≠ id → id ∈ eraseId ds j := fun j hj => by
-        simp only [eraseId, List.mem_filter, hd, true_and]; simpa using fun h => hj h.symm
-      cases r with
-      | ok j =>
-        have hj : j ≠ id := fun e => hr.1 (by rw [e])
-        simp only [List.cons_append, connEvs, List.mem_cons]
-        exact Or.inr (ih _ (keep j hj) hrest)
-      | err j =>
-        have hj : j ≠ id := fun e => hr.2 (by rw [e])
-        simp only [List.cons_append, connEvs]
-        split
-        · simp only [List.mem_cons]; exact Or.inr (ih _ (keep j hj) hrest)
-        · exact ih _ hd hrest
-  simp only [due, hc, List.mem_append]
-  exact Or.inr (key pre t.dials hd hpre)
+    (hd : id ∈ t.dials) (hpre : ∀ r ∈ pre, r ≠ .ok id ∧ r ≠ .err id) : Ev.dialFailure id ∈ due t :=
+  mem_due_of_queued_dial_failure t id pre post hc hd hpre
 
 example : Ev.dialFailure 0 ∈ due { conns := [.err 7, .ok 8, .err 0], dials := [0] } := by decide
 
